@@ -46,6 +46,8 @@ def run(cmd, cwd=None, env=None, timeout=None, inp=None):
 def build_harness(race=False):
     os.makedirs(BUILD, exist_ok=True)
     subprocess.run(["cp", os.path.join(REPO, "go.sum"), os.path.join(HARNESS, "go.sum")], check=True)
+    if REPO != "/repo":
+        subprocess.run(["go", "mod", "edit", "-replace", "github.com/trustbloc/sidetree-go=" + REPO], cwd=HARNESS, env=goenv(), check=True)
     out = HZ + ("-race" if race else "")
     cmd = ["go", "build", "-tags", "verif"] + (["-race"] if race else []) + ["-o", out, "./cmd/hz"]
     r = run(cmd, cwd=HARNESS, env=goenv())
